@@ -24,6 +24,8 @@ def outcome_variants(rng, n, edges, k, big_p=0.25, missing_p=0.2):
         behav = []
         for i in range(n):
             b = {'rc': 1 if rng.random() < 0.35 else 0, 'sleep_ms': rng.choice([0, 0, 30, 90])}
+            if rng.random() < 0.1:          # terminated by a signal: SEGV, KILL, TERM, ABRT
+                b = {'signal': rng.choice([11, 9, 15, 6]), 'sigtouch': rng.random() < 0.5, 'sleep_ms': rng.choice([0, 30])}
             if rng.random() < big_p:
                 b['out'] = rng.choice(BIG)
                 b['err'] = rng.choice(BIG)
@@ -68,6 +70,14 @@ def gen_cases(chk, quick):
         cases.append(sc.mk_case(spec, pool, [{'sleep_ms': 40}, {}, {'rc': 0}, {}], label='unspawnable'))
         spec = sc.mk_spec(7, [(w, 0) for w in (2, 3, 4, 5, 6)], unspawnable=[1])
         cases.append(sc.mk_case(spec, pool, [{'sleep_ms': 80}, {}] + [{'sleep_ms': 60} for _ in range(5)], label='unspawnable'))
+    # a command terminated by a signal: ends broken, its dependents get a verdict too, the run terminates
+    for sig in (11, 9, 15, 6):
+        for w in sc.WHENS:
+            spec = sc.mk_spec(3, [(1, 0), (2, 1)], whens=['by_dependencies', w, 'by_dependencies'])
+            cases.append(sc.mk_case(spec, 2, [{'signal': sig, 'sigtouch': sig % 2 == 1, 'out': 300, 'err': 300}, {}, {}], label='signal'))
+    spec = sc.mk_spec(4, [(3, 0), (3, 1), (3, 2)])
+    cases.append(sc.mk_case(spec, 2, [{'signal': 9}, {}, {'rc': 1}, {}], label='signal'))
+    cases.append(sc.mk_case(spec, 1, [{'signal': 11, 'err': 70000}, {'signal': 15}, {}, {}], label='signal'))
     # large output on either stream (K4a shape): below and above the pipe capacity, with and without a dependent, failing or not
     for out_b in BIG:
         for err_b in BIG:
@@ -127,6 +137,7 @@ def run(chk):
         'a step with 2 and with 3 dependencies under EVERY assignment of success/failure to them, x when of the waiting step x edge kind; '
         'a step whose file dependency does not exist with a chain of dependents (x edge kinds x when), and joins with one or two such steps; '
         'a step whose command cannot be SPAWNED (NUL byte in an exported line_items variable: exec EINVAL) with dependents x when, in a join, and with five steps waiting behind a gate at pools 1 and 2 (also 8 % of the steps of the random families); '
+        'a command TERMINATED BY A SIGNAL (SEGV, KILL, TERM, ABRT; with partial output / output file written) with a chain of dependents x when, in joins, and 10 % of the steps of the random families; '
         'a command writing {0,1000,70000,300000} bytes to stdout x the same to stderr (pipe capacity 65536), succeeding or failing, with a dependent; ' +
         ('60 of the 543 DAGs on 4 steps + all DAGs on 2..3 steps' if quick else 'ALL 543 DAGs on 4 steps x 4 + all DAGs on <= 3 steps x 10 + 150 random DAGs on 5..8 steps') +
         ' with random outcomes (35 % failing commands, 20 % of the private input files missing, 25 % large outputs), when-options, pools 1/2/4, one or two runs. '
